@@ -50,10 +50,11 @@ theorem fitLoop_eq (max maxLen : Nat) (ap : Bool) (cur : Nat) (es : List Entry) 
         simp [List.take_succ_cons]
       · simp
 
-/-- Size bound: once at least one entry is taken the frame stays below the maximum. -/
-theorem fitN_bound (max maxLen : Nat) (ap : Bool) (cur : Nat) (es : List Entry)
-    (hsz : ∀ e ∈ es, (encE ap e).length ≤ maxLen) (hpos : 0 < fitN max maxLen ap cur es) :
-    cur + ((es.take (fitN max maxLen ap cur es)).flatMap (encE ap)).length < max := by
+/-- Size bound: once at least one entry is taken the frame stays below the maximum, with `k` bytes to
+    spare when every entry is `k` bytes shorter than the reservation. -/
+theorem fitN_bound_slack (max maxLen k : Nat) (ap : Bool) (cur : Nat) (es : List Entry)
+    (hsz : ∀ e ∈ es, (encE ap e).length + k ≤ maxLen) (hpos : 0 < fitN max maxLen ap cur es) :
+    cur + ((es.take (fitN max maxLen ap cur es)).flatMap (encE ap)).length + k < max := by
   induction es generalizing cur with
   | nil => simp [fitN] at hpos
   | cons e es ih =>
@@ -68,6 +69,12 @@ theorem fitN_bound (max maxLen : Nat) (ap : Bool) (cur : Nat) (es : List Entry)
         · have h0 : fitN max maxLen ap (cur + (encE ap e).length) es = 0 := by omega
           simp [h0]; omega
       · omega
+
+theorem fitN_bound (max maxLen : Nat) (ap : Bool) (cur : Nat) (es : List Entry)
+    (hsz : ∀ e ∈ es, (encE ap e).length ≤ maxLen) (hpos : 0 < fitN max maxLen ap cur es) :
+    cur + ((es.take (fitN max maxLen ap cur es)).flatMap (encE ap)).length < max := by
+  have := fitN_bound_slack max maxLen 0 ap cur es (by simpa using hsz) hpos
+  omega
 
 /-- Progress: a non-empty list and room for the reservation ⇒ at least one entry is taken. -/
 theorem fitN_pos (max maxLen : Nat) (ap : Bool) (cur : Nat) (e : Entry) (es : List Entry)
